@@ -70,7 +70,10 @@ type Reader struct {
 }
 
 func (r *Reader) HashID() HashID {
-	return SHA1ID
+	if r.header.HashID == NullHashID {
+		return SHA1ID
+	}
+	return r.header.HashID
 }
 
 func (r *Reader) DebugData() string {
